@@ -212,6 +212,7 @@ def replay_call(path, func, call, params):
         f"        res['api'] = eval('api_replay_' + {call!r}, ns)\n"
         "    except Exception as e:\n"
         "        res['api'] = {'error': type(e).__name__ + ': ' + str(e)[:300]}\n"
+        f"res['api_gate'] = bool(getattr(H, 'api_gate_{func}', False))\n"
         "print('@@' + json.dumps(res, default=repr))\n"
     )
     env = env_for_child({"VH_PARAMS": json.dumps(params or {})})
@@ -260,7 +261,11 @@ def run_ob_crosshair(ob: Ob):
             return res
         rep = replay_call(path, ob.func, call, params)
         res["cex"] = {"call": call, "replay": rep}
-        if rep.get("ok") is False:
+        if rep.get("ok") is False and rep.get("api_gate") and not (rep.get("api") or {}).get("reproduced"):
+            # the obligation checks an ASSUMPTION of the proof (not the property itself): without an API-level reproduction it only
+            # means the proof no longer applies
+            res.update(verdict="inconclusive", reason="a proof assumption no longer holds but the API-level replay found no property violation")
+        elif rep.get("ok") is False:
             res["verdict"] = "violated"
             res["finding_key"] = rep.get("finding_key") or f"{ob.id}:{call}"
         else:
